@@ -243,7 +243,7 @@ def const_of(e: Optional[ast.AST]):
     return "expr"
 
 
-LATER_RULES = ' Later rules: R16.4 emptiness by iteration; R16.6/R16.12 through helpers; R16.11 also while-else and remove_dead_ifs; R16.13 counts parameters; (R16.14) analysers keep no module-level memory; (R16.15) named callees and undecorated functions only. (R16.21) optional parameters of has_side_effect that recursive calls leave out have empty defaults; (R16.20) a with statement does not block through an exception raised in its body (the context manager may swallow it).'
+LATER_RULES = ' Later rules: R16.4 emptiness by iteration; R16.6/R16.12 through helpers; R16.11 also while-else and remove_dead_ifs; R16.13 counts parameters; (R16.14) analysers keep no module-level memory; (R16.15) named callees and undecorated functions only. (R16.22) the whitelist handed to recursive calls is that of the caller, never a locally widened one; (R16.21) optional parameters of has_side_effect that recursive calls leave out have empty defaults; (R16.20) a with statement does not block through an exception raised in its body (the context manager may swallow it).'
 
 
 def check(prog: Program, tier: str) -> Result:
@@ -297,7 +297,8 @@ def check(prog: Program, tier: str) -> Result:
     _r16_19(prog, res)
     _r16_20(prog, res)
     _r16_21(prog, res)
-    res.floors.update({"R16.21": 1, "R16.20": 1, "R16.1": 60, "R16.2": 25, "R16.3": 10, "R16.4": 2, "R16.5": 1, "R16.6": 3, "R16.7": 8, "R16.8": 5, "R16.9": 2, "R16.10": 4, "R16.11": 1, "R16.12": 1, "R16.13": 1, "R16.15": 2, "R16.16": 3, "R16.17": 1, "R16.18": 4, "R16.19": 1})
+    _r16_22(prog, res)
+    res.floors.update({"R16.22": 1, "R16.21": 1, "R16.20": 1, "R16.1": 60, "R16.2": 25, "R16.3": 10, "R16.4": 2, "R16.5": 1, "R16.6": 3, "R16.7": 8, "R16.8": 5, "R16.9": 2, "R16.10": 4, "R16.11": 1, "R16.12": 1, "R16.13": 1, "R16.15": 2, "R16.16": 3, "R16.17": 1, "R16.18": 4, "R16.19": 1})
     res.analysed.update({"ast_kinds": len(kinds)})
     return res
 
@@ -937,6 +938,46 @@ def _r16_18(prog: Program, res: Result) -> None:
 
 
 # ------------------------------------------------------------------------------------------------ R16.19
+# ------------------------------------------------------------------------------------------------ R16.22
+def _r16_22(prog: Program, res: Result) -> None:
+    """The whitelist of safe callables is the CALLER's knowledge about the module.  has_side_effect widens it locally for one purpose
+    (`"".join(..)`: the method of a constant receiver is safe) - that wider set describes the callee of this one call, not what its
+    arguments call: in `"".join(join(parts))` the inner `join` is a function of the module.  Obligation: every recursive call
+    of the analyser that passes the whitelist on passes the parameter as it was received (its first version), never a re-bound,
+    wider one (versions of the path-condition engine)."""
+    from ..pathcond import PathAnalysis
+    fn = prog.func("core", "has_side_effect")
+    wl = fn.posparams[1] if len(fn.posparams) > 1 else None
+    if wl is None:
+        raise AnalysisError("has_side_effect: whitelist parameter not found")
+    rebound = any(isinstance(x, ast.Name) and x.id == wl and isinstance(x.ctx, ast.Store) for x in walk_own(fn.node))
+    rec = [c for c in prog.calls_in(fn) if (lambda r: r and r[0] == "fn" and r[1].key == fn.key)(prog.resolve_call(c.func, fn.mod, fn))]
+    pa = PathAnalysis(prog, fn, max_worlds=64) if rebound else None
+    bad = None
+    n = 0
+    for c in rec:
+        a = c.args[1] if len(c.args) > 1 else next((k.value for k in c.keywords if k.arg == wl), None)
+        if isinstance(a, ast.Name) and a.id != wl:
+            from ..defuse import bindings as _bindings
+            widened = any(v is not None and wl in {x.id for x in ast.walk(v) if isinstance(x, ast.Name)} and (
+                (isinstance(v, ast.BinOp) and isinstance(v.op, ast.BitOr)) or ".union(" in norm(v)) for _s, v in _bindings(fn).get(a.id, []))
+            if widened:
+                n += 1
+                bad = bad or c
+            continue
+        if not (isinstance(a, ast.Name) and a.id == wl):
+            continue
+        n += 1
+        toks = {w.token(wl) for w in pa.worlds_at(c)} if pa is not None else set()
+        if toks - {f"{wl}#0"}:
+            bad = bad or c
+    res.decide(bad is None, "R16.22", fn.loc(bad) if bad is not None else fn.loc(), fn.fq,
+               f"{short(bad, 70) if bad is not None else wl} # the whitelist handed to recursive calls",
+               f"all {n} recursive calls that pass it on pass the caller's whitelist" if bad is None else
+               f"`{wl}` was re-bound to a wider set before this recursive call: what was added for the callee of ONE call (the method name of a constant receiver, "
+               "`\"\".join`) also whitewashes what the arguments call - `\"\".join(join(parts))` with a user-defined `join` is deleted as pointless")
+
+
 # ------------------------------------------------------------------------------------------------ R16.21
 def _r16_21(prog: Program, res: Result) -> None:
     """has_side_effect calls itself for sub-expressions; several of those calls do not hand the whitelist of safe callables on
@@ -1373,6 +1414,7 @@ def _positive(test: ast.AST) -> bool:
 from ..selftest import Variant  # noqa: E402
 
 VARIANTS: List[Variant] = [
+    Variant("arguments-judged-with-the-widened-whitelist", "FIRE", "core", "            or any(has_side_effect(item, safe_callable_whitelist) for item in node.args)\n", "            or any(has_side_effect(item, callee_whitelist) for item in node.args)\n", "R16.22"),
     Variant("with-blocks-only-without-raise-or-assert-inside", "REPAIRED", "core", '    if isinstance(node, ast.With):\n        return any(is_blocking(child, parent_type) for child in node.body)\n',
             "    if isinstance(node, ast.With):\n        if any(walk(node, (ast.Raise, ast.Assert))):\n            return False\n        return any(is_blocking(child, parent_type) for child in node.body)\n", "R16.20"),
     Variant("with-never-blocks", "REPAIRED", "core", '    if isinstance(node, ast.With):\n        return any(is_blocking(child, parent_type) for child in node.body)\n', "    if isinstance(node, ast.With):\n        return False\n", "R16.20"),
